@@ -113,8 +113,11 @@ def mutants_of(path):
                     continue
                 new = l[:m.start()] + rep + l[m.end():]
                 out.append({"line": i + 1, "kind": kind, "old": l.strip(), "new": new.strip(), "text": new})
-        for m in INT.finditer(l):
+        table_row = len(INT.findall(l[:end])) >= 5     # rows of constant tables: at most one literal each
+        for k, m in enumerate(INT.finditer(l)):
             if m.start() >= end or in_string(l, m.start()):
+                continue
+            if table_row and k != (i % 5):
                 continue
             v = int(m.group(1))
             if v > 100000:
